@@ -228,10 +228,22 @@ class Extractor:
             q = self.scope.resolve_call(e)
         if q in ("builtins.pow", "math.pow") and len(args) == 2:
             return binop("**", args[0], args[1])
+        if q in ("math.fmod", "math.remainder") and len(args) == 2:
+            return ("bin", q.split(".")[1], args[0], args[1])       # same shape as %, different operator
         if q == "math.sqrt" and len(args) == 1:
             return ("call", "sqrt", tuple(args))
         if q in ("builtins.max", "builtins.min") and len(args) >= 2 and not e.keywords:
-            return ("op", FUNC_ALIASES[q], tuple(args))     # commutative: operands are aligned, not ordered
+            name = FUNC_ALIASES[q]
+            if name == "min" and len(args) == 2:
+                # clamp written outside-in: min(hi, max(lo, x)) == max(lo, min(hi, x)) for lo <= hi
+                hi = [a for a in args if is_num(a)]
+                inner = [a for a in args if a[0] == "op" and a[1] == "max" and len(a[2]) == 2]
+                if len(hi) == 1 and len(inner) == 1:
+                    lo = [a for a in inner[0][2] if is_num(a)]
+                    x = [a for a in inner[0][2] if not is_num(a)]
+                    if len(lo) == 1 and len(x) == 1 and lo[0][1] <= hi[0][1]:
+                        return ("op", "max", (lo[0], ("op", "min", (hi[0], x[0]))))
+            return ("op", name, tuple(args))     # commutative: operands are aligned, not ordered
         if q in ("builtins.abs", "math.fabs") and len(args) == 1:
             x = args[0]
             if x[0] == "op" and x[1] == "+" and len(x[2]) == 2 and sum(1 for y in x[2] if y[0] == "neg") == 1:
